@@ -1,6 +1,6 @@
 //! Executing one call of one of the four processing entry points, with panics as data and
 //! optional guard-paged buffers.
-use crate::mem::{Align, GuardBuf};
+use crate::mem::Align;
 use crate::planners::panic_msg;
 use rustfft::num_complex::Complex;
 use rustfft::{Fft, FftNum};
@@ -78,26 +78,35 @@ pub fn run_call<T: FftNum>(
             }));
             finish(entry, r.err().map(panic_msg), data, out)
         }
-        Some(al) => {
-            let mut data = GuardBuf::from_slice(input, al);
-            let mut out = GuardBuf::from_slice(out_init, al);
-            let mut scratch = GuardBuf::from_slice(scratch_init, al);
+        Some(al) => crate::mem::ARENAS.with(|ar| {
+            let mut ar = ar.borrow_mut();
+            let (a0, rest) = ar.split_at_mut(1);
+            let (a1, a2) = rest.split_at_mut(1);
+            let dp = a0[0].place(input, al);
+            let op = a1[0].place(out_init, al);
+            let sp = a2[0].place(scratch_init, al);
+            // Safety: the three arenas are distinct mappings, each slice lies inside its arena's payload
+            let (data, out, scratch) = unsafe {
+                (
+                    std::slice::from_raw_parts_mut(dp, input.len()),
+                    std::slice::from_raw_parts_mut(op, out_init.len()),
+                    std::slice::from_raw_parts_mut(sp, scratch_init.len()),
+                )
+            };
             if entry == Entry::Immut {
-                data.set_readonly(true);
+                a0[0].set_readonly(true);
             }
             let r = catch_unwind(AssertUnwindSafe(|| match entry {
-                Entry::Process => fft.process(data.as_mut_slice()),
-                Entry::Inplace => fft.process_with_scratch(data.as_mut_slice(), scratch.as_mut_slice()),
-                Entry::Oop => {
-                    fft.process_outofplace_with_scratch(data.as_mut_slice(), out.as_mut_slice(), scratch.as_mut_slice())
-                }
-                Entry::Immut => fft.process_immutable_with_scratch(data.as_slice(), out.as_mut_slice(), scratch.as_mut_slice()),
+                Entry::Process => fft.process(data),
+                Entry::Inplace => fft.process_with_scratch(data, scratch),
+                Entry::Oop => fft.process_outofplace_with_scratch(data, out, scratch),
+                Entry::Immut => fft.process_immutable_with_scratch(data, out, scratch),
             }));
             if entry == Entry::Immut {
-                data.set_readonly(false);
+                a0[0].set_readonly(false);
             }
-            finish(entry, r.err().map(panic_msg), data.as_slice().to_vec(), out.as_slice().to_vec())
-        }
+            finish(entry, r.err().map(panic_msg), data.to_vec(), out.to_vec())
+        }),
     }
 }
 
